@@ -7,7 +7,8 @@ from . import common
 LEVEL = "exploration"
 RULE = ("seeded random datasets (<=4-5 interleaved groups, null keys, null values incl. leading nulls and all-null groups, "
         "boolean masks, both skip_na settings for cumsum) x cumsum/cummin/cummax/cumcount x float/int/uint/bool/datetime/"
-        "timedelta incl. magnitudes above 2^53. Every non-null-key selected row is compared with the prefix reduction of "
+        "timedelta incl. magnitudes above 2^53; plus one group of 65535/65536/65537/70000 (thorough: up to 200000) rows "
+        "interleaved with two small ones, against NumPy prefix reductions. Every non-null-key selected row is compared with the prefix reduction of "
         "its group computed in exact Python arithmetic; the last cumulative value per group is cross-checked against the "
         "library's own sum/min/max/size. distinct = case digests; non-trivial = some group has >= 2 selected rows")
 ASSUMPTIONS = [
@@ -20,11 +21,54 @@ N_CASES = {"quick": 1100, "thorough": 12000}
 
 
 def plan(tier):
-    return common.std_plan(tier)
+    return common.std_plan(tier) + [dict(shard=100, nshards=1, mode="prod")]
+
+
+BIG_SIZES = {"quick": [65535, 65536, 65537, 70000], "thorough": [32767, 32768, 65535, 65536, 65537, 70000, 131073, 200000]}
+
+
+def check_big(case, ctx):
+    """one group of `size` rows interleaved with two small ones: per-group counters and running states must be as wide as a group
+    can be long.  Reference = NumPy prefix reductions on each group's selected rows (small integers: exact in every dtype)."""
+    from groupby_lib import GroupBy
+
+    size, op, dtype = case["size"], case["op"], case["val"]["dtype"]
+    rng = np.random.Generator(np.random.PCG64(case["seed"]))
+    n = size + 600
+    keys = np.zeros(n, dtype="int64")
+    small = rng.choice(n, size=600, replace=False)
+    keys[small[:300]] = 1
+    keys[small[300:]] = 2
+    vals = rng.integers(-9, 10, size=n).astype(dtype)
+    mask = (rng.random(n) < 0.999) if case["masked"] else None
+    if mask is not None:
+        mask[small] = True
+    gb = lib.call(GroupBy, keys)
+    res = lib.call(gb.cumcount, mask=mask) if op == "cumcount" else lib.call(getattr(gb, op), vals, mask=mask)
+    sig = f"{op}|big|{np.dtype(dtype).kind}"
+    if lib.raised(res):
+        return [{"monitor": "c08.raised", "sig": sig, "detail": f"{op} on a group of {size} rows raised {res!r}"}]
+    got = np.asarray(res)
+    if len(got) != n:
+        return [{"monitor": "c08.shape", "sig": sig, "detail": f"{op}: {len(got)} results for {n} rows"}]
+    sel_all = np.ones(n, bool) if mask is None else mask
+    for g in (0, 1, 2):
+        idx = np.flatnonzero((keys == g) & sel_all)
+        ctx.counters["big_group_rows_max"] = max(ctx.counters["big_group_rows_max"], len(idx))
+        v = vals[idx].astype("float64" if np.dtype(dtype).kind == "f" else "int64")
+        exp = {"cumsum": np.cumsum, "cummin": np.minimum.accumulate, "cummax": np.maximum.accumulate, "cumcount": lambda x: np.arange(len(x))}[op](v)
+        a = got[idx].astype(exp.dtype)
+        bad = np.flatnonzero(a != exp)
+        if len(bad):
+            j = int(bad[0])
+            return [{"monitor": "c08.value", "sig": sig, "detail": f"{op}(dtype={dtype}, masked={case['masked']}) on a group of {len(idx)} selected rows: the group's row number {j} "
+                                                                    f"(input row {int(idx[j])}) is {got[idx[j]]!r}, prefix reduction {exp[j]!r}"}]
+    ctx.count("big_group_calls")
+    return []
 
 
 def required_counters(tier):
-    return ["masked", "skip_na_false", "above_2^53", "null_keys", "last_vs_reduction_checked", "leading_null_value"]
+    return ["masked", "skip_na_false", "above_2^53", "null_keys", "last_vs_reduction_checked", "leading_null_value", "big_group_calls"]
 
 
 def features(case):
@@ -141,6 +185,16 @@ def gen_case(rng, dtypes):
 
 
 def run(ctx):
+    if ctx.shard == 100:
+        j = 0
+        for size in BIG_SIZES[ctx.tier]:
+            for op, dtype in [("cumsum", "int64"), ("cumsum", "float64"), ("cummin", "int32"), ("cummax", "float32"), ("cumcount", "int64")]:
+                for masked in ([False, True] if (ctx.tier == "thorough" or size == 70000) else [False]):
+                    j += 1
+                    case = {"big": True, "size": size, "n": size + 600, "op": op, "masked": masked, "seed": int(ctx.seed) * 1000 + j, "noshrink": True,
+                            "keys": [], "val": {"dtype": dtype, "vals": []}, "mask": None, "params": {}}
+                    ctx.run_case(case, check_big, lambda c: [f"big|{c['op']}|{c['size']}"], lambda c: True)
+        return
     err = model.selfcheck() if ctx.shard == 0 else None
     if err:
         raise RuntimeError(err)
